@@ -297,6 +297,9 @@ struct Deserializer<'de> {
     // field_name tells deserialize_identifier which field name to process.
     // This field should always be set by set_field_name function.
     field_name: Option<SharedLabel>,
+    // Set together with the "_" placeholder name of a wire field the expected type does not have, so
+    // that untyped decoding can tell the placeholder from a real field named "_".
+    field_is_skipped: bool,
     // Indicates whether to deserialize with IDLValue.
     // It only affects the field id generation in enum type.
     is_untyped: bool,
@@ -321,6 +324,7 @@ impl<'de> Deserializer<'de> {
             expect_type: TypeInner::Unknown.into(),
             gamma: Gamma::default(),
             field_name: None,
+            field_is_skipped: false,
             is_untyped: false,
             config: config.clone(),
             recursion_depth: crate::utils::RecursionDepth::new(),
@@ -1399,11 +1403,17 @@ impl<'de> de::Deserializer<'de> for &mut Deserializer<'de> {
     where
         V: Visitor<'de>,
     {
+        let skipped = replace(&mut self.field_is_skipped, false);
         match self.field_name.take() {
             Some(l) => match l.as_ref() {
                 Label::Named(name) => {
                     self.add_cost(name.len())?;
-                    visitor.visit_string(name.to_string())
+                    if skipped && self.is_untyped {
+                        // IDLValue drops this entry; a real field named "_" arrives as a string
+                        visitor.visit_unit()
+                    } else {
+                        visitor.visit_string(name.to_string())
+                    }
                 }
                 Label::Id(hash) | Label::Unnamed(hash) => {
                     self.add_cost(4)?;
@@ -1699,6 +1709,7 @@ impl<'de> de::MapAccess<'de> for Compound<'_, 'de> {
                             }
                             Ordering::Greater => {
                                 self.de.set_field_name(Label::Named("_".to_owned()).into());
+                                self.de.field_is_skipped = true;
                                 self.de.wire_type = w.ty.clone();
                                 self.de.expect_type = TypeInner::Reserved.into();
                                 *wire_idx += 1;
@@ -1707,6 +1718,7 @@ impl<'de> de::MapAccess<'de> for Compound<'_, 'de> {
                     }
                     (None, Some(_)) => {
                         self.de.set_field_name(Label::Named("_".to_owned()).into());
+                        self.de.field_is_skipped = true;
                         self.de.wire_type = wire_fields[*wire_idx].ty.clone();
                         self.de.expect_type = TypeInner::Reserved.into();
                         *wire_idx += 1;
